@@ -40,13 +40,6 @@ package vm
 //@ ensures[C14.load.own] !old(haskey(vm.loadedCode, cc)) && uf("code.root", *compiler.Code, cc) != cc && old(vm.loadedCode[uf("code.root", *compiler.Code, cc)]) != nil ==> result != nil && same(result.Globals, old(vm.loadedCode[uf("code.root", *compiler.Code, cc)].Globals))
 //@ ensures result != nil && haskey(vm.loadedCode, cc) && vm.loadedCode[cc] == result
 
-// wrapCode copies the instructions, names and constants of a compiled code object into a new vm.code (assumed: it
-// returns a newly allocated object and writes nothing else; its loops are not under contract).
-//@ func wrapCode
-//@ trusted
-//@ modifies nothing
-//@ ensures result != nil && fresh(result)
-
 //@ func loadChildCode
 //@ props C14
 //@ requires root != nil && cc != nil
